@@ -2,6 +2,7 @@
 from __future__ import annotations
 
 import math
+import warnings
 import numpy as np
 
 from .. import zoo
@@ -213,6 +214,7 @@ def run_sim(desc):
             prod.payoff.payoff_dates_type = PayoffDates.STOCHASTIC
     else:
         prod = StubProduct(dates, stochastic=(mode != "fixed"))
+    dates_used = [float(x) for x in (prod.times_grid().grid if desc.get("asian") else dates)]
     eps = desc["eps"] if mode == "maxstep" else None
     counts = iter(desc["counts"])
     flat = iter([x for iv in desc["incs"] for x in iv])
@@ -259,7 +261,7 @@ def run_sim(desc):
             sig = [float(cp.equivalent_diffusion_coefficient_fine), float(cp.equivalent_diffusion_coefficient_coarse)]
         normals = list(sc.normals)
     times = np.asarray(path.jump_times if not hasattr(path.jump_times, "grid") else path.jump_times.grid, float)
-    out = dict(times=[float(x) for x in np.asarray(times).reshape(-1)], sig=sig, normals=normals)
+    out = dict(times=[float(x) for x in np.asarray(times).reshape(-1)], sig=sig, normals=normals, dates=dates_used)
     out["diff"] = np.atleast_2d(np.asarray(path.diffusion_path, float)).tolist()
     out["jumps"] = np.atleast_2d(np.asarray(path.jump_path, float)).tolist()
     # jump sizes actually used, per product interval
@@ -280,7 +282,7 @@ def run_sim(desc):
 def expected_paths(desc, out):
     """the property's own reading: at every output time, jump component = sum of all jump sizes with jump time <= t,
     diffusion component = running sum of sqrt(dt) sigma z"""
-    dates, mode = desc["dates"], desc["mode"]
+    dates, mode = out["dates"], desc["mode"]
     times = out["times"]
     exp_j = []
     for sizes in out["sizes"]:
@@ -311,13 +313,17 @@ def probe_sim(ctx, desc):
                last_gap_exceeds_eps=bool(mode == "maxstep" and last_gap > eps))
     probe = "c15.sim"
     try:
-        out = run_sim(desc)
+        with warnings.catch_warnings():
+            warnings.simplefilter("ignore")          # 0/0 in probability_to_right_jump on zero-mass cells is C03's subject
+            out = run_sim(desc)
     except Exception as e:  # noqa
         ctx.count(probe, desc, nontrivial=False, branch=f"raises:{sim}:{mode}")
         ctx.fail("oracle", probe + ".raises", desc, {"what": "simulate_one_path raised", "error": f"{type(e).__name__}: {e}"[:300]}, cls=cls)
         return
     ctx.count(probe, desc, nontrivial=njumps > 0, branch=f"{sim}:{mode}:{min(n_dates, 2)}d")
     times, diff, jumps = out["times"], out["diff"], out["jumps"]
+    dates = out["dates"]
+    T = dates[-1]
     ncomp = 2 if sim == "coupled" else 1
     # ---- C first (its verdict tells whether a known-faulty output still is the recorded faulty output)
     mirrors = lean_compare(ctx, desc, out, cls)
@@ -360,7 +366,7 @@ def probe_sim(ctx, desc):
 
 def lean_compare(ctx, desc, out, cls):
     """implementation vs M (the *as coded* model). returns True when they agree"""
-    sim, mode, dates = desc["sim"], desc["mode"], desc["dates"]
+    sim, mode, dates = desc["sim"], desc["mode"], out["dates"]
     times = out["times"]
     n_dates = len(dates) - 1
     dts = np.diff(np.array(times))
